@@ -1,7 +1,8 @@
 use crate::framework::Scenario;
 
 pub mod c11_framing;
+pub mod c15_handshake;
 
 pub fn all() -> Vec<Box<dyn Scenario>> {
-    vec![Box::new(c11_framing::C11)]
+    vec![Box::new(c11_framing::C11), Box::new(c15_handshake::C15)]
 }
